@@ -9,6 +9,7 @@ import TerwayModel.Driver.NetConf
 import TerwayModel.Driver.Datapath
 import TerwayModel.Driver.Webhook
 import TerwayModel.Driver.Daemon
+import TerwayModel.Driver.Pool
 /-
 `drv`: reads one operation per line (`<model>.<op> arg…`), prints one canonical line per input.
 Malformed or unknown lines print `bad-op` — never a default value.
@@ -20,6 +21,7 @@ structure St where
   vsw : VSwitch.St := VSwitch.St.init
   fib : DatapathD.FibSt := {}
   dm : DaemonD.St := DaemonD.St.init
+  pl : PoolD.St := {}
 
 def dispatch (st : St) (line : String) : St × String :=
   match words line with
@@ -39,6 +41,10 @@ def dispatch (st : St) (line : String) : St × String :=
     | ["nc", op] => (st, (NetConfD.step op args).getD "bad-op")
     | ["cfg", op] => (st, (JsonD.step op args).getD "bad-op")
     | ["cni", op] => (st, (JsonD.chainStep op args).getD "bad-op")
+    | ["pl", op] =>
+      match PoolD.step st.pl op args with
+      | some (t, o) => ({ st with pl := t }, o)
+      | none => (st, "bad-op")
     | ["dm", op] =>
       match DaemonD.step st.dm op args with
       | some (t, o) => ({ st with dm := t }, o)
@@ -58,7 +64,7 @@ partial def loop (h : IO.FS.Stream) (out : IO.FS.Stream) (st : St) : IO Unit := 
   if line.isEmpty then return ()
   let l := (line.dropEndWhile (fun c => c == '\n' || c == '\r')).toString
   let (st', o) := dispatch st l
-  out.putStrLn o
+  out.putStrLn (o.replace "\n" " ")   -- one line per operation, whatever a `Repr` instance prints
   loop h out st'
 
 def main : IO Unit := do
